@@ -316,6 +316,59 @@ func c17Values(c *ctx, r *rng) error {
 		} else if len(want) > 0 && !reflect.DeepEqual(normJSON(ve), normJSON(want[len(want)-1].(J)["e"])) {
 			res.violate(cs, want[len(want)-1].(J)["e"], ve, "the last segment does not end where the attribute value ends")
 		}
+		// the SAME value text written a second time elsewhere in the file: the second occurrence is reported with its own
+		// positions (nothing about a value may be remembered by its text)
+		if r.p(40) {
+			mid := r.pick([]string{"", "\n", "\n\n  ", "<i>é</i>", " x\n\t"})
+			pre2 := src + mid + "<span" + r.pick([]string{" ", "  ", "\n", " k=v "}) + ":rep="
+			src2 := pre2 + quote + v + quote + ">"
+			rs2 := []rune(src2)
+			off2 := len([]rune(pre2))
+			var want2 []any
+			add2 := func(kind int, text string) {
+				l := len([]rune(text))
+				a, b := posAt(rs2, off2), posAt(rs2, off2+l)
+				want2 = append(want2, J{"k": kind, "v": text, "s": []any{a[0], a[1]}, "e": []any{b[0], b[1]}})
+				off2 += l
+			}
+			add2(1, quote)
+			for _, sg := range segs {
+				if sg.kind == 2 {
+					add2(2, sg.text)
+				} else {
+					add2(3, "${")
+					add2(4, sg.text)
+					add2(5, "}")
+				}
+			}
+			add2(1, quote)
+			res.S3Checked++
+			res.count("repeated_value_cases")
+			if toks2, err2, pan2 := implScanTokens(src2, nil, ":"); err2 == nil && pan2 == nil {
+				var got1, got2 []any
+				for _, t := range toks2 {
+					if t.Tag == nil {
+						continue
+					}
+					for _, a := range t.Tag.Attrs {
+						for _, vt := range a.ValueTokens {
+							tj := J{"k": int(vt.Kind), "v": vt.Value, "s": posJ(vt.Start), "e": posJ(vt.End)}
+							if a.Name == name {
+								got1 = append(got1, tj)
+							} else if a.Name == ":rep" {
+								got2 = append(got2, tj)
+							}
+						}
+					}
+				}
+				cs2 := J{"src": src2, "value": quote + v + quote}
+				if !reflect.DeepEqual(normJSON(want), normJSON(got1)) || !reflect.DeepEqual(normJSON(want2), normJSON(got2)) {
+					res.violate(cs2, J{"first": want, "second": want2}, J{"first": got1, "second": got2}, "a directive value written twice in one file: the segments of an occurrence are not reported at that occurrence's own positions")
+				}
+			} else {
+				res.violate(J{"src": src2}, "tokens", J{"err": fmt.Sprint(err2), "panic": fmt.Sprint(pan2)}, "a file with the same well-formed directive value twice is rejected by the scanner")
+			}
+		}
 		if c.d != nil {
 			m, err := c.d.ask(J{"op": "codescan", "src": quote + v + quote, "line": valStart[0], "col": valStart[1]})
 			if err != nil {
